@@ -192,8 +192,28 @@ func (r *Runner) Close() { r.in.Close(); r.cmd.Wait() }
 
 // ---------- helpers ----------
 
+// the running campaign, so that a generator that cannot build its genuine inputs (the
+// library's own output is not accepted by the reference implementation, a sender fails)
+// still leaves a result file naming what broke instead of just dying
+var runningH *H
+var runningOut string
+var runningT0 time.Time
+
 func fatal(f string, a ...interface{}) {
-	fmt.Fprintf(os.Stderr, "corr: "+f+"\n", a...)
+	msg := fmt.Sprintf(f, a...)
+	fmt.Fprintf(os.Stderr, "corr: %s\n", msg)
+	if runningH != nil && runningOut != "" {
+		h := runningH
+		h.res.Failures = append(h.res.Failures, Failure{Kind: "correspondence", Key: "generator-precondition",
+			Desc: "the campaign could not build its genuine inputs: " + msg, Case: Case{Op: "generator", A: map[string]string{"what": msg}}})
+		h.res.FailureCounts["correspondence:generator-precondition"]++
+		h.res.WallS = time.Since(runningT0).Seconds()
+		b, _ := json.MarshalIndent(h.res, "", " ")
+		if os.WriteFile(runningOut, b, 0o644) == nil {
+			fmt.Printf("corr: %s %s: stopped after %d evaluations: %s\n", h.res.Property, h.res.Tier, h.res.Evaluations, msg)
+			os.Exit(0)
+		}
+	}
 	os.Exit(3)
 }
 
@@ -272,6 +292,7 @@ func main() {
 		h := &H{rn: startRunner(runnerPath), rng: &SplitMix{s: seed*0x9e3779b97f4a7c15 + 0x1234567}, seen: map[string]bool{}, tier: tier, maxFail: 60, sampleEv: 37, perKey: map[string]int{}}
 		h.res = Result{Property: prop, Tier: tier, Seed: seed, Rule: c.rule, Distribution: map[string]int{}, FailureCounts: map[string]int{}}
 		t0 := time.Now()
+		runningH, runningOut, runningT0 = h, out, t0
 		// minimized failing cases of earlier runs are replayed first
 		if files, _ := filepath.Glob(filepath.Join("..", "corpus", prop, "*.json")); len(files) > 0 {
 			sort.Strings(files)
